@@ -65,6 +65,21 @@ def churn_plan(spec, inst, rnd, member_p=0.4):
         plan.append(('asset', None, nid))
     return big, plan
 
+SLOW: list = []       # churned cases abandoned because the real code ran for more than 15 s (counted in the evidence)
+
+def _churned_model(lg, fac, spec, inst, churn, member_p):
+    from maltoolbox.attackgraph import AttackGraph
+    big, plan = churn_plan(spec, inst, churn, member_p)
+    m, byid = build_model(fac, big)
+    assocs = list(m.associations)
+    AttackGraph(lg, m)                       # an earlier generation on the larger model
+    # removals of single members last: the other removals may reset what the code caches
+    for kind, i, x in sorted(plan, key=lambda p: p[0] == 'member'):
+        if kind == 'member': m.remove_asset_from_association(byid[x], assocs[i])
+        elif kind == 'link': m.remove_association(assocs[i])
+        else: m.remove_asset(byid[x])
+    return m, byid
+
 def impl_generate(spec, inst, keep=False, churn=None, member_p=0.4):
     from maltoolbox.attackgraph import AttackGraph
     try:
@@ -72,15 +87,13 @@ def impl_generate(spec, inst, keep=False, churn=None, member_p=0.4):
         if churn is None:
             m, byid = build_model(fac, inst)
         else:
-            big, plan = churn_plan(spec, inst, churn, member_p)
-            m, byid = build_model(fac, big)
-            assocs = list(m.associations)
-            AttackGraph(lg, m)                       # an earlier generation on the larger model
-            # removals of single members last: the other removals may reset what the code caches
-            for kind, i, x in sorted(plan, key=lambda p: p[0] == 'member'):
-                if kind == 'member': m.remove_asset_from_association(byid[x], assocs[i])
-                elif kind == 'link': m.remove_association(assocs[i])
-                else: m.remove_asset(byid[x])
+            from .common import time_limit, CaseTimeout
+            try:
+                with time_limit(15):
+                    m, byid = _churned_model(lg, fac, spec, inst, churn, member_p)
+            except CaseTimeout:
+                SLOW.append(1)
+                m, byid = build_model(fac, inst)
         for a in inst['assets']:
             # names chosen by the model (unnamed assets, automatic renaming of duplicates) are read back
             a['name'] = str(byid[a['id']].name)
